@@ -10,6 +10,7 @@ sub-configuration, tree load, document load in each format able to carry the val
 configuration, configuration whose sub-configurations were created by a load}; plus shape errors.
 """
 import json
+import os
 
 from mc import cfgworld as W
 from mc import values as V
@@ -430,7 +431,14 @@ def _paths(job, ctx):
                             except Exception:  # noqa
                                 ctx.skipped += 1
                                 continue
-                            fn = lambda: cfg.loads(doc, fmt)  # noqa
+                            if prior == "loaded":
+                                # the same document through a file on disk (Config.load)
+                                fpath = os.path.join(ctx.tmp, "c15-doc.cfg")
+                                with open(fpath, "wb") as fh:
+                                    fh.write(doc)
+                                fn = lambda: cfg.load(fpath, fmt)  # noqa
+                            else:
+                                fn = lambda: cfg.loads(doc, fmt)  # noqa
                         elif route == "top-assign":
                             fn = lambda: setattr(cfg, top, part)  # noqa
                         elif route == "attr":
@@ -523,7 +531,7 @@ def _shapes(job, ctx):
 # ---------------------------------------------------------------------------------------------
 # histories: a rejection, then the offending configuration moves, then another rejection
 # ---------------------------------------------------------------------------------------------
-MOVES = ["none", "del-first", "insert-front", "reverse", "to-other-list", "pop-append", "sort-swap"]
+MOVES = ["none", "del-first", "insert-front", "reverse", "to-other-list", "pop-append", "sort-swap", "reassign-reordered", "reassign-subset", "reload-own-tree"]
 TARGETS = ["c", "inner.e", "d[k]"]
 
 
@@ -591,13 +599,24 @@ def _moves(job, ctx):
                             elif move == "sort-swap":
                                 cfg.items[0], cfg.items[1] = cfg.items[1], cfg.items[0]
                                 want = "items[0]"
+                            elif move == "reassign-reordered":
+                                # the list is assigned again from a plain list of its own items, in another order
+                                cfg.items = [cfg.items[1], cfg.items[2], cfg.items[0]]
+                                want = "items[0]"
+                            elif move == "reassign-subset":
+                                cfg["items"] = [victim]
+                                want = "items[0]"
+                            elif move == "reload-own-tree":
+                                cfg.load_tree({"items": [cfg.items[2].to_tree(), victim.to_tree()]})
+                                victim = cfg.items[1]
+                                want = "items[1]"
                             else:
                                 want = "items[1]"
                         except Exception as exc:  # noqa
                             ctx.case(tuple(map(str, key)), "move:raises", True)
                             ctx.violation("C15|moves|%s|move-raises" % move, "move %s raised %r" % (move, exc), _case(job, key))
                             continue
-                        exc = reject()
+                        exc = reject(victim)
                         name = "Inner E" if target == "inner.e" else None
                         ctx.case(tuple(map(str, key)), "move:%s:%s" % (move, type(exc).__name__ if exc else "accepted"), True)
                         judge(ctx, job, key, "C15|moves|%s|%s|%s|%s" % (kind, move, target, prior) + ("|warm" if warm else ""),
